@@ -62,7 +62,7 @@ def key_root(k):
 
 
 class State:
-    __slots__ = ("iv", "arr", "alias", "bf", "ub", "sym")
+    __slots__ = ("iv", "arr", "alias", "bf", "ub", "sym", "shadow")
 
     def __init__(self):
         self.iv = {}
@@ -71,6 +71,7 @@ class State:
         self.bf = {}      # bool local -> (op, akey, bkey); keys may be ("c", value)
         self.ub = {}      # key -> frozenset of keys known to be strictly greater (relational upper bounds)
         self.sym = {}     # key -> ("sub", C, K): value == C - value(K), no wrap-around
+        self.shadow = {}  # ref local -> (array local, element intervals before `&mut array` was taken)
 
     def copy(self):
         s = State()
@@ -80,11 +81,13 @@ class State:
         s.bf = dict(self.bf)
         s.ub = dict(self.ub)
         s.sym = dict(self.sym)
+        s.shadow = dict(self.shadow)
         return s
 
     def same(self, o):
         return self.iv == o.iv and self.arr == o.arr and self.alias == o.alias and self.bf == o.bf \
-            and self.ub == o.ub and self.sym == o.sym
+            and self.ub == o.ub and self.sym == o.sym \
+            and self.shadow == o.shadow
 
 
 class Analysis:
@@ -138,6 +141,66 @@ class Analysis:
         return None
 
     def _prescan(self):
+        mut_borrows = []
+        self._prescan_blocks(mut_borrows)
+        # references derived from a `&mut x`
+        derived = {}
+        for r, x in mut_borrows:
+            if r is None:
+                self.escaped.add(x)
+            else:
+                derived.setdefault(r, set()).add(x)
+        changed = True
+        while changed:
+            changed = False
+            for l, rr in self.refroot.items():
+                for e in rr:
+                    if e is not None and e[0] == "ref" and e[1] in derived:
+                        if not derived[e[1]] <= derived.get(l, set()):
+                            derived.setdefault(l, set()).update(derived[e[1]])
+                            changed = True
+
+        def has_ptr(t):
+            return ir.ty_contains(t, lambda u: u.get("k") in ("ptr", "other", "dyn", "alias"))
+        for blk in self.v.blocks:
+            if blk.get("cleanup"):
+                continue
+            t = blk["term"]
+            if t["t"] == "call":
+                for a in t["args"]:
+                    if a.get("o") in ("copy", "move") and not a["p"] and a["l"] in derived:
+                        dt = self.body["locals"][t["dest"]["l"]]["ty"]
+                        if has_ptr(dt):
+                            self.escaped.update(derived[a["l"]])
+            for s in blk["stmts"]:
+                if s["s"] == "assign" and s["rv"]["r"] == "cast":
+                    a = s["rv"]["a"]
+                    if a.get("o") in ("copy", "move") and not a["p"] and a["l"] in derived \
+                            and s["rv"]["ty"].get("k") == "ptr":
+                        self.escaped.update(derived[a["l"]])
+                elif s["s"] == "assign" and s["rv"]["r"] == "rawptr":
+                    pl = s["rv"]["pl"]
+                    if pl["l"] in derived and "deref" in pl["p"]:
+                        self.escaped.update(derived[pl["l"]])
+
+    def _prescan_blocks(self, mut_borrows):
+        self.usecount = {}
+        for blk in self.v.blocks:
+            if blk.get("cleanup"):
+                continue
+            for op in ir.operands_of_block(blk):
+                if op.get("o") in ("copy", "move"):
+                    self.usecount[op["l"]] = self.usecount.get(op["l"], 0) + 1
+            for s in blk["stmts"]:
+                if s["s"] == "assign":
+                    if s["rv"]["r"] in ("ref", "rawptr", "discr"):
+                        x = s["rv"]["pl"]["l"]
+                        self.usecount[x] = self.usecount.get(x, 0) + 1
+                    if s["pl"]["p"]:
+                        self.usecount[s["pl"]["l"]] = self.usecount.get(s["pl"]["l"], 0) + 1
+            t = blk["term"]
+            if t["t"] == "drop":
+                self.usecount[t["pl"]["l"]] = self.usecount.get(t["pl"]["l"], 0) + 1
         for bi, blk in enumerate(self.v.blocks):
             if blk.get("cleanup"):
                 continue
@@ -151,8 +214,15 @@ class Analysis:
                     if rv["m"] == "mut" and "deref" not in pl["p"]:
                         lt = self.body["locals"][pl["l"]]["ty"]
                         is_range = lt["k"] == "adt" and lt["n"] == "core::ops::range::Range"
-                        if not (is_range and any("`for` loop" in m for m in s.get("mac", []))):
+                        if is_range and any("`for` loop" in m for m in s.get("mac", [])):
+                            pass
+                        elif rv["r"] == "rawptr":
                             self.escaped.add(pl["l"])
+                        else:
+                            # safe `&mut x`: x is havocked where the borrow is created (no direct access
+                            # to x can happen while the borrow lives); it escapes for good only if the
+                            # reference can turn into a raw pointer (checked below)
+                            mut_borrows.append((dst["l"] if not dst["p"] else None, pl["l"]))
                     if not dst["p"]:
                         if pl["p"] == ["deref"]:
                             self.refroot.setdefault(dst["l"], []).append(("ref", pl["l"]))
@@ -499,9 +569,28 @@ class Analysis:
         st = self.v.prog.structs.get(defkey)
         return bool(st and len(st["variants"]) > 1)
 
+    def havoc(self, st, x):
+        self.kill_local(st, x)
+        st.arr.pop(x, None)
+        if x in self.arrlen and x not in self.escaped:
+            n, erng = self.arrlen[x]
+            st.arr[x] = [erng] * n
+
     def assign(self, st, s):
         pl, rv = s["pl"], s["rv"]
         l = pl["l"]
+        if rv["r"] == "ref" and rv["m"] == "mut" and "deref" not in rv["pl"]["p"]:
+            x = rv["pl"]["l"]
+            lt = self.body["locals"][x]["ty"]
+            if not (lt["k"] == "adt" and lt["n"] == "core::ops::range::Range"
+                    and any("`for` loop" in m for m in s.get("mac", []))):
+                saved = st.arr.get(x)
+                self.havoc(st, x)
+                for r in [r for r, sh in st.shadow.items() if sh[0] == x]:
+                    del st.shadow[r]
+                if saved is not None and not rv["pl"]["p"] and not pl["p"] and self.usecount.get(l, 0) == 1 \
+                        and x not in self.escaped:
+                    st.shadow[l] = (x, tuple(saved))
         if pl["p"]:
             if "deref" in pl["p"]:
                 return   # write through a pointer: pointees with a mutable borrow are `escaped`
@@ -575,6 +664,12 @@ class Analysis:
                     rv["a"].get("o") in ("copy", "move") and not rv["a"]["p"]:
                 src = rv["a"]["l"]
             tgt, clen = None, None
+            if rv["r"] == "use" and rv["a"].get("o") in ("copy", "move") and rv["a"]["p"]:
+                path = self.path_of(rv["a"]["p"])
+                if path is not None and rv["a"]["l"] not in self.escaped:
+                    liv = st.iv.get(("pl", rv["a"]["l"], path + (("len",),)))
+                    if liv is not None and liv[0] == liv[1]:
+                        clen = liv[0]
             if src is not None and src != l:
                 lk = self.len_key(src, st)
                 if lk is not None and lk[0] == "len":
@@ -705,6 +800,7 @@ class Analysis:
             return
         rng = self.rng[d]
         iv, alias, fact, paths, syms, ubs = None, None, None, {}, {}, {}
+        ref_len, restore = None, None
         a0 = args[0] if args else None
         a0_local = a0["l"] if (a0 is not None and a0.get("o") in ("copy", "move") and not a0["p"]) else None
         if name in self.LEN_CALLS and a0_local is not None:
@@ -760,11 +856,39 @@ class Analysis:
                     st.iv[ks] = (start[0], max(start[1], end[1]))
                 else:
                     st.iv.pop(ks, None)
+        elif name in ("core::slice::<impl [T]>::split_at", "core::slice::<impl [T]>::split_at_mut") \
+                and len(args) == 2 and a0_local is not None:
+            mid, _ = self.eval_operand(st, args[1])
+            if mid is not None:
+                paths[(("f", 0), ("len",))] = mid
+                lk = self.len_key(a0_local, st)
+                if lk is not None:
+                    liv = (lk[1], lk[1]) if lk[0] == "const" else self.get(st, lk)
+                    if liv is not None:
+                        paths[(("f", 1), ("len",))] = (max(0, liv[0] - mid[1]), max(0, liv[1] - mid[0]))
+        elif name is not None and "::index::Index" in name and "for str>" not in name and len(args) == 2 \
+                and a0_local is not None:
+            ref_len, restore = self.index_call(st, name, a0_local, args[1])
         else:
             sm = self.summaries.get(name)
             if sm is not None:
                 iv = sm(self, st, args)
+        for a in args:
+            if a.get("o") in ("copy", "move") and not a["p"]:
+                st.shadow.pop(a["l"], None)
         self.kill_local(st, d)
+        if restore is not None:
+            x, elems = restore
+            if x in self.arrlen and x not in self.escaped:
+                st.arr[x] = elems
+        if ref_len is not None and d not in self.escaped:
+            pt = self.pointee_ty(d)
+            if pt is not None and pt["k"] == "slice":
+                if ref_len[0] == "key" and key_root(ref_len[1]) != d:
+                    k = ref_len[1]
+                    st.alias[d] = k[1] if (k[0] == "len" and isinstance(k[1], int)) else k
+                elif ref_len[0] == "iv":
+                    st.iv[("len", d)] = ref_len[1]
         st.arr.pop(d, None)
         if d in self.escaped:
             return
@@ -786,6 +910,65 @@ class Analysis:
                     st.sym[("pl", d, p_)] = v
             for p_, v in ubs.items():
                 st.ub[("pl", d, p_)] = v
+
+    def range_operand(self, op):
+        """(kind, start operand, end operand) of a Range* typed operand built by an aggregate."""
+        if op.get("o") not in ("copy", "move") or op["p"]:
+            return None
+        t = self.v.local_ty(op["l"])
+        if t["k"] != "adt":
+            return None
+        d = self.v.single_def(op["l"])
+        ops = d[2]["rv"]["ops"] if (d is not None and d[1] != "term" and d[2]["rv"]["r"] == "agg") else None
+        n = t["n"]
+        if n == "core::ops::range::Range" and ops and len(ops) == 2:
+            return ("range", ops[0], ops[1])
+        if n == "core::ops::range::RangeTo" and ops and len(ops) == 1:
+            return ("to", None, ops[0])
+        if n == "core::ops::range::RangeFrom" and ops and len(ops) == 1:
+            return ("from", ops[0], None)
+        if n == "core::ops::range::RangeFull":
+            return ("full", None, None)
+        return None
+
+    def index_call(self, st, name, recv, range_op):
+        """Length of the sub-slice returned by slice/array/Vec indexing with a range, and the
+        array elements that indexing through a fresh `&mut array` cannot reach."""
+        ra = self.range_operand(range_op)
+        if ra is None:
+            return None, None
+        kind, s_op, e_op = ra
+        lk = self.len_key(recv, st)
+        len_iv = None
+        if lk is not None:
+            len_iv = (lk[1], lk[1]) if lk[0] == "const" else self.get(st, lk)
+        s_iv = self.eval_operand(st, s_op)[0] if s_op is not None else (0, 0)
+        e_iv = self.eval_operand(st, e_op)[0] if e_op is not None else len_iv
+        ref_len = None
+        if kind == "to":
+            ek = self.operand_key(st, e_op)
+            if ek is not None and not is_c(ek) and isinstance(ek, tuple) and ek[0] == "len":
+                ref_len = ("key", ek)
+            elif e_iv is not None:
+                ref_len = ("iv", e_iv)
+        elif kind == "full":
+            if lk is not None and lk[0] == "len":
+                ref_len = ("key", lk)
+            elif len_iv is not None:
+                ref_len = ("iv", len_iv)
+        elif kind in ("range", "from") and s_iv is not None and e_iv is not None:
+            lo, hi = max(0, e_iv[0] - s_iv[1]), max(0, e_iv[1] - s_iv[0])
+            ref_len = ("iv", (lo, hi))
+        restore = None
+        sh = st.shadow.get(recv)
+        if sh is not None and "IndexMut" in name:
+            x, elems = sh
+            lo = s_iv[0] if s_iv is not None else 0
+            hi = e_iv[1] if e_iv is not None else len(elems)
+            erng = self.arrlen[x][1] if x in self.arrlen else None
+            if erng is not None:
+                restore = (x, [elems[j] if (j < lo or j >= hi) else erng for j in range(len(elems))])
+        return ref_len, restore
 
     # ------------------------------------------------------------------ branches
     def refine(self, st, op, ak, bk, truth):
@@ -942,6 +1125,9 @@ class Analysis:
         for k, v in a.sym.items():
             if b.sym.get(k) == v:
                 r.sym[k] = v
+        for k, v in a.shadow.items():
+            if b.shadow.get(k) == v:
+                r.shadow[k] = v
         return r
 
     def _run(self):
